@@ -252,14 +252,14 @@ Example C19_hypotheses_satisfiable :
   let p := @mk_params NumFloat 2%float 2%Z in
   let st := @mk_stats NumFloat 0%float 0%float 1%float 0%float in
   let s0 := md3_start (Some 2%Z) [1; 2; 3]%Z 3%Z 4%Z st in
-  let s1 := md3_next p s0 (OUpdate 1%Z 1%float) in
-  let l := OLabel 1%Z [3; 1; 2]%Z false st in
+  let s1 := md3_next p s0 (@OUpdate NumFloat 1%Z 1%float) in
+  let l := @OLabel NumFloat 1%Z [3; 1; 2]%Z false st in
   (0 < m_req s0)%Z /\ (p_k p <= m_req s0)%Z /\
   m_wait s1 = true /\ m_ds s1 = DWarn /\ cols_match [3; 1; 2]%Z (m_feat s1 ++ m_targ s1) = true /\
   (zlen (m_rows s1) + 1 + 1)%Z = m_req s1 /\
   m_ds (md3_run p s1 [l; l]) = DDrift /\ m_wait (md3_run p s1 [l; l]) = false /\
   (match md3_step (@mk_params NumFloat 2%float 3%Z) (md3_next p s1 l) l with Crashed _ => true | _ => false end) = true.
-Proof. vm_compute. repeat split; reflexivity. Qed.
+Proof. vm_compute. repeat split; try reflexivity; discriminate. Qed.
 
 Print Assumptions C19_refused_calls_change_nothing.
 Print Assumptions C19_update_refusal_rule.
